@@ -101,13 +101,33 @@ theorem C07_slice_array (t : Bool) (items full xs : List Val) (l r : Option Nat)
     ∀ dq orig, slice l r (.vec dq (.array t items full) orig) = .ok (.vec dq (.array t xs full) orig) := by
   simp [slice, h]
 
-/-- Full statement for slices: never a panic.  False of the unchanged code (C08's recorded findings
-`slice-left-greater-than-right-panics`, `slice-left-past-end-panics`); mirrored by the model. -/
-def C07_slice_total_full : Prop := ∀ (items : List Val) (l r : Option Nat), ∀ c, sliceItems items l r ≠ .panic c
+/-- **C07_slice_total.** Full statement for slices: never a panic, for every item list and all bounds (the code after
+the repair of C08's defects `slice-left-greater-than-right-panics`, `slice-left-past-end-panics`: BugStalker ccf13b4). -/
+theorem C07_slice_total (items : List Val) (l r : Option Nat) (c : String) : sliceItems items l r ≠ .panic c := by
+  unfold sliceItems
+  simp only []
+  split
+  · simp
+  · cases r with
+    | none => simp
+    | some r => simp only []; split <;> (try split) <;> simp
 
-theorem C07_slice_total_counterexample : ¬ C07_slice_total_full := by
-  intro h
-  exact h [.int 1, .int 2, .int 3, .int 4] (some 3) (some 1) "sub" (by rfl)
+/-- a range that does not fit (`l > len` or `r < l`) yields no result, and only such a range does
+(the converse of `C07_slice`) -/
+theorem C07_slice_none_iff (items : List Val) (l r : Option Nat) :
+    sliceItems items l r = .none ↔ ¬ (l.getD 0 ≤ r.getD items.length ∧ l.getD 0 ≤ items.length) := by
+  unfold sliceItems
+  simp only []
+  cases r with
+  | none => simp only [Option.getD_none]; split <;> simp <;> omega
+  | some r =>
+    simp only [Option.getD_some]
+    repeat' split
+    all_goals simp
+    all_goals omega
+
+example : sliceItems [.int 1, .int 2, .int 3, .int 4] (some 3) (some 1) = .none := by rfl
+example : sliceItems [.int 1, .int 2, .int 3, .int 4] (some 5) none = .none := by rfl
 
 /-- **C07_canonic_len.** `~v` of a vector (deque, map, set, string, Rc, cell) is its underlying structure, so
 `(~v).f` is the field `f` of that structure; `~` of any other value is the value itself. -/
